@@ -38,7 +38,7 @@ from . import env, known
 EVIDENCE_DIR = os.path.join(env.VERIF_ROOT, 'evidence')
 REPLAY_DIR = os.path.join(env.VERIF_ROOT, 'replays')
 NPROC = int(os.environ.get('MC_NPROC', '16'))
-CASE_HORIZON_S = int(os.environ.get('MC_CASE_HORIZON', '300'))
+CASE_HORIZON_S = int(os.environ.get('MC_CASE_HORIZON', '900'))
 GUARD_OFF = {'C08', 'C09'}       # these run with the hook guard off (DESIGN 2.5)
 
 _MOD = None
@@ -48,8 +48,13 @@ class HarnessError(Exception):
     pass
 
 
+class CaseTimeout(BaseException):
+    """Raised by the per-case alarm. A BaseException on purpose: the `except Exception` clauses that observe the code under
+    test must never mistake the harness's own horizon for an exception raised by ampycloud."""
+
+
 def _alarm(signum, frame):
-    raise TimeoutError('per-case horizon exceeded')
+    raise CaseTimeout('per-case horizon exceeded')
 
 
 def _worker(case):
@@ -59,7 +64,7 @@ def _worker(case):
     try:
         r = _MOD.run_case(case)
         r = dict(r) if r else {}
-    except TimeoutError:
+    except CaseTimeout:
         r = {'harness_error': f'time-out after {CASE_HORIZON_S}s', 'n': 0}
     except Exception:
         r = {'harness_error': traceback.format_exc(limit=8), 'n': 0}
